@@ -56,7 +56,13 @@ func H_C14_strategies() {
 	RegisterFunction("vh", cntH)
 	verif.Opt("schedules", 1)
 	verif.Opt("race", 1)
-	verif.Opt("preempt", 1+verif.Tier())
+	// thorough tier: a second preemption for up to two rows (one row for the
+	// nested forms), three rows with one preemption
+	p := 1
+	if verif.Tier() > 0 && (n <= 1 || (n == 2 && form < 4)) {
+		p = 2
+	}
+	verif.Opt("preempt", p)
 	doc, rows := numTable(n, "a")
 	var sql string
 	switch form {
